@@ -459,7 +459,9 @@ async fn part1(args: &Args, rng: &mut Rng, summary: &mut Summary, distinct: &mut
                     );
                     // the Coq model is evaluated on a sample of the real-chain pairs (each case carries the
                     // window table of every block of both chains); the direct oracle runs on all
-                    let to_coq = rng.chance(1, if thorough { 8 } else { 12 });
+                    // (larger tables are sampled more thinly: the case files stay near 1 MB per shard)
+                    let den = (if thorough { 10 } else { 12 }) * (1 + (mine.index.len() + peer.index.len()) as u64 / 100);
+                    let to_coq = rng.chance(1, den);
                     record_pair(summary, &mut p1, distinct, &format!("real gp{}", gp), desc, mine, peer, est, to_coq);
                 }
             }
